@@ -18,7 +18,7 @@ RULE = (
     "One evaluation per loader pass / per baseline row; non-trivial = distinct case"
 )
 ASSUMPTIONS = ["baseline policy = small untrained AttentionModelPolicy; greedy rewards are batch-independent (C14)"]
-REQUIRED_COUNTERS = ["c17_loader_passes", "c17_partial_last_batch", "c17_shuffled_reads", "c17_extra_checks", "c17_wrap_calls", "c17_baseline_rows", "c17_history_rows", "c17_rewraps", "c17_optimizer_steps", "c17_fit_batches_with_extra", "c17_train_mode_flips"]
+REQUIRED_COUNTERS = ["c17_module_setups", "c17_module_file_reads", "c17_loader_passes", "c17_partial_last_batch", "c17_shuffled_reads", "c17_extra_checks", "c17_wrap_calls", "c17_baseline_rows", "c17_history_rows", "c17_rewraps", "c17_optimizer_steps", "c17_fit_batches_with_extra", "c17_train_mode_flips"]
 MIN_NONTRIVIAL = {"quick": 700, "thorough": 2000}
 WORKERS = {"quick": 14, "thorough": 16}
 BUDGET_S = {"quick": 400, "thorough": 3000}
@@ -57,13 +57,19 @@ def cases(tier, seed):
         for r in range(3 if q else 6):
             out.append(dict(kind="fit", env=env, N=rnd.choice([13, 16, 21]), bs=rnd.choice([4, 5]), shuffle=rnd.random() < 0.7, s=rnd.randrange(10**6), epochs=rnd.choice([3, 4]),
                             warmup=rnd.choice([0, 0, 2])))
+    # file-backed validation / test sets through the module's own setup() / val_dataloader() path, set up more than once
+    for prob in ("tsp", "vrp"):
+        for sizes in ([20], [20, 50], [50, 20, 20]):
+            for r in range(2 if q else 5):
+                out.append(dict(kind="module_files", problem=prob, sizes=sizes, N=rnd.choice([5, 7]), bs=rnd.choice([2, 3, 16]), named=bool(r % 2), s=rnd.randrange(10**6),
+                                stages=rnd.choice([["fit", "test"], ["fit", "fit", "test"], ["fit", "validate"]])))
     return out
 
 
 def run_case(ctx, case):
     from vlib import c17impl
 
-    dict(roundtrip=c17impl.roundtrip_case, baseline=c17impl.baseline_case, history=c17impl.history_case, fit=c17impl.fit_case)[case["kind"]](ctx, case)
+    dict(roundtrip=c17impl.roundtrip_case, baseline=c17impl.baseline_case, history=c17impl.history_case, fit=c17impl.fit_case, module_files=c17impl.module_files_case)[case["kind"]](ctx, case)
 
 
 MANIFEST = {
